@@ -48,6 +48,10 @@ def run_scenario(task):
     gam = gam_n * RATE_UNIT * scale
     G = build_graph(n, w, g)
     nodes = list(range(1, n + 1))
+    if task.get("selfloops"):
+        for u in nodes:
+            if (u + len(st0)) % 2 == 0 or st0[u - 1] == "S":
+                G.add_edge(u, u, w=3.0)
     I0 = [u for u in nodes if st0[u - 1] == "I"]
     R0 = [u for u in nodes if st0[u - 1] == "R"]
     kw = {"tmin": tmin}
